@@ -266,7 +266,7 @@ func decodeScalar(data []byte, oid int) interface{} {
 
 	// JSON
 	case OidJSONB:
-		if v := ParseJSONB(data); v != nil {
+		if v, ok := parseJSONB(data); ok {
 			return v
 		}
 		return safeString(data)
